@@ -101,6 +101,9 @@ func (w *World) runOracles(pre *Snapshot, op Op, res *StepResult, post *Snapshot
 	if on("C16") {
 		w.oracleC16(pre, op, res, post)
 	}
+	if on("C07") || on("C08") {
+		w.oracleC07(pre, op, res, post)
+	}
 }
 
 // ---------------------------------------------------------------------------------------------- C01
